@@ -366,6 +366,11 @@ func c07r4(c *Ctx) {
 				if b, ok := f.Info().Uses[id].(*types.Builtin); !ok || b.Name() != "append" {
 					continue
 				}
+				// a take puts the candidate into a selection (a list of elements); collecting ids or building
+				// inputs from an already made selection is not one
+				if dst, ok := f.TypeOf(call.Expr.Args[0]).Underlying().(*types.Slice); !ok || !ir.IsNamed(dst.Elem(), ir.PkgPath("types"), "SiacoinElement") {
+					continue
+				}
 				for _, a := range call.Expr.Args[1:] {
 					for v, s := range elemVars {
 						if f.MentionsObj(a, false, v) {
